@@ -57,10 +57,17 @@ func protoCallback(callback *callback.Callback) *pb.Callback {
 }
 
 func protoRecv(recv *pb.Recv) ([]byte, error) {
+	if recv == nil {
+		return nil, status.Error(codes.InvalidArgument, "The field recv is required.")
+	}
+
 	switch r := recv.Recv.(type) {
 	case *pb.Recv_Logical:
 		return json.Marshal(&r.Logical)
 	case *pb.Recv_Physical:
+		if r.Physical == nil {
+			return nil, status.Error(codes.InvalidArgument, "The field recv is required.")
+		}
 		return json.Marshal(&receiver.Recv{Type: r.Physical.Type, Data: r.Physical.Data})
 	default:
 		return nil, status.Error(codes.InvalidArgument, "The field recv is required.")
